@@ -163,7 +163,7 @@ theorem rstrip_of_last {x : Bytes} {b : UInt8} (h : x.getLast? = some b) (hp : i
   rw [dropWhile_of_head (by rw [List.head?_reverse]; exact h) hp, List.reverse_reverse]
 
 theorem rstrip_snoc_ws (x : Bytes) (c : UInt8) (h : isPyWs c = true) : rstrip (x ++ [c]) = rstrip x := by
-  simp [rstrip, List.dropWhile, h]
+  simp [rstrip, h]
 
 theorem lstrip_cons_ws (c : UInt8) (x : Bytes) (h : isPyWs c = true) : lstrip (c :: x) = lstrip x := by
   simp [lstrip, List.dropWhile, h]
@@ -506,5 +506,533 @@ theorem parseHeader_written_sub (name sub : Bytes) (hn : checkSectionName name =
   have e7 : inner (34 :: (E ++ [34])) = E := by simp [inner]
   simp only [e6, if_true, e7, hn]
   rw [← hE, unescape_escaped]
+
+
+/-! ### whole files: line splitting -/
+
+theorem splitLinesAux_line (body : Bytes) (h : ¬ 10 ∈ body) (rest cur : Bytes) :
+    splitLinesAux (body ++ 10 :: rest) cur = (cur.reverse ++ body ++ [10]) :: splitLinesAux rest [] := by
+  induction body generalizing cur with
+  | nil => simp [splitLinesAux]
+  | cons c body ih =>
+    simp only [List.mem_cons, not_or] at h
+    have hc : c ≠ 10 := fun e => h.1 e.symm
+    simp [splitLinesAux, hc, ih h.2]
+
+/-- a LF-terminated line without inner LF is the next element of `readlines()` -/
+theorem splitLines_line (body : Bytes) (h : ¬ 10 ∈ body) (rest : Bytes) :
+    splitLines ((body ++ [10]) ++ rest) = (body ++ [10]) :: splitLines rest := by
+  unfold splitLines
+  have := splitLinesAux_line body h rest []
+  simpa using this
+
+/-! ### per-byte facts about names and about what the writers emit -/
+
+theorem varChar_facts : ∀ c : UInt8, (isAlnum c || Gen.Config.varNameExtra.contains c) = true →
+    isPyWs c = false ∧ c ≠ 61 ∧ c ≠ 91 ∧ c ≠ 10 ∧ Plain c := by
+  apply forall_u8; unfold Plain; decide +kernel
+
+theorem sectionChar_ne_lf : ∀ c : UInt8, (isAlnum c || Gen.Config.sectionNameExtra.contains c) = true → c ≠ 10 := by
+  apply forall_u8; decide +kernel
+
+theorem escByte_no_lf : ∀ c : UInt8, ¬ 10 ∈ escByte c := by
+  apply forall_u8; decide +kernel
+
+theorem subEscByte_lf : ∀ c : UInt8, 10 ∈ subEscByte c → c = 10 := by
+  apply forall_u8; decide +kernel
+
+theorem flatMap_no_lf (v : Bytes) : ¬ 10 ∈ v.flatMap escByte := by
+  intro h
+  obtain ⟨c, _, hc⟩ := List.mem_flatMap.mp h
+  exact escByte_no_lf c hc
+
+theorem formatString_no_lf (v : Bytes) : ¬ 10 ∈ formatString v := by
+  unfold formatString
+  split
+  · simp only [Gen.Config.formatQuoteOpen, Gen.Config.formatQuoteClose, escapeValue_eq, List.mem_append,
+      List.mem_singleton, not_or]
+    exact ⟨⟨by decide, flatMap_no_lf v⟩, by decide⟩
+  · rw [escapeValue_eq]; exact flatMap_no_lf v
+
+
+/-! ### a written value line is never taken for a continued line -/
+
+/-- reversed output of `_escape_value` for one byte -/
+def escByteRev (c : UInt8) : Bytes := (escByte c).reverse
+
+theorem escByteRev_bs : escByteRev 92 = [92, 92] := by decide
+
+theorem escByteRev_head : ∀ c : UInt8, (escByteRev c).head?.any (fun a => a ≠ 13 && (c = 92 || a ≠ 92)) = true := by
+  apply forall_u8; decide +kernel
+
+/-- `trailingCount 92` on the reversed list -/
+def tcRev (r : Bytes) : Nat := trailingCount 92 r.reverse
+
+theorem tcRev_cons_bs (r : Bytes) : tcRev (92 :: r) = tcRev r + 1 := by
+  simp [tcRev, trailingCount]
+
+theorem tcRev_cons_ne (a : UInt8) (r : Bytes) (h : a ≠ 92) : tcRev (a :: r) = 0 := by
+  simp [tcRev, trailingCount, h]
+
+/-- the run of backslashes at the end of an escaped value has even length -/
+theorem trailing_bs_even (w : Bytes) : tcRev (w.flatMap escByteRev ++ [32]) % 2 = 0 := by
+  induction w with
+  | nil => decide
+  | cons c w ih =>
+    rw [List.flatMap_cons, List.append_assoc]
+    by_cases h92 : c = 92
+    · subst h92
+      rw [escByteRev_bs]
+      simp only [List.cons_append, List.nil_append, tcRev_cons_bs]
+      omega
+    · have := escByteRev_head c
+      cases hh : escByteRev c with
+      | nil => simp [hh] at this
+      | cons a t =>
+        simp [hh, h92] at this
+        rw [List.cons_append, tcRev_cons_ne a _ this.2]
+
+theorem dropLast_one_snoc (A : Bytes) (c : UInt8) : dropLast 1 (A ++ [c]) = A := by
+  simp [dropLast]
+
+theorem isLineContinuation_false (X R : Bytes) (r0 : UInt8) (hX : X.reverse = r0 :: R) (h13 : r0 ≠ 13)
+    (heven : tcRev (r0 :: R) % 2 = 0) : isLineContinuation (X ++ [10]) = false := by
+  have hlf : Gen.Config.contSuffixLF.isSuffixOf (X ++ [10]) = decide (r0 = 92) := by
+    by_cases h : r0 = 92
+    · subst h; simp [List.isSuffixOf, Gen.Config.contSuffixLF, List.isPrefixOf, hX]
+    · have h' : ¬ 92 = r0 := fun e => h e.symm
+      simp [List.isSuffixOf, Gen.Config.contSuffixLF, List.isPrefixOf, h, h', hX]
+  have hcrlf : Gen.Config.contSuffixCRLF.isSuffixOf (X ++ [10]) = false := by
+    have h' : ¬ 13 = r0 := fun e => h13 e.symm
+    simp [List.isSuffixOf, Gen.Config.contSuffixCRLF, List.isPrefixOf, h', hX]
+  unfold isLineContinuation
+  simp only [hlf, hcrlf, Bool.or_false]
+  by_cases h92 : r0 = 92
+  · subst h92
+    have hs : [Gen.Config.contBackslash].isSuffixOf X = true := by
+      simp [List.isSuffixOf, Gen.Config.contBackslash, List.isPrefixOf, hX]
+    have htc : trailingCount Gen.Config.contBackslash X % 2 = 0 := by
+      have : tcRev (92 :: R) = trailingCount 92 X := by rw [tcRev, ← hX, List.reverse_reverse]
+      rw [this] at heven
+      exact heven
+    simp only [decide_true, Bool.not_true, Bool.false_eq_true, if_false, dropLast_one_snoc, hs, htc]
+    decide
+  · simp [h92]
+
+
+theorem formatted_rev (v : Bytes) : ∃ r0 R, (32 :: formatString v).reverse = r0 :: R ∧ r0 ≠ 13 ∧
+    tcRev (r0 :: R) % 2 = 0 := by
+  unfold formatString
+  split
+  · refine ⟨34, (escapeValue v).reverse ++ [34, 32], ?_, by decide, ?_⟩
+    · simp [Gen.Config.formatQuoteOpen, Gen.Config.formatQuoteClose]
+    · rw [tcRev_cons_ne 34 _ (by decide)]
+  · rw [escapeValue_eq]
+    have hrev : (32 :: v.flatMap escByte).reverse = v.reverse.flatMap escByteRev ++ [32] := by
+      rw [List.reverse_cons, List.reverse_flatMap]; rfl
+    rw [hrev]
+    have hev := trailing_bs_even v.reverse
+    cases hw : v.reverse with
+    | nil => exact ⟨32, [], by simp, by decide, by decide⟩
+    | cons c w =>
+      rw [hw] at hev
+      have := escByteRev_head c
+      cases hh : escByteRev c with
+      | nil => simp [hh] at this
+      | cons a t =>
+        simp [hh] at this
+        rw [List.flatMap_cons, hh] at hev ⊢
+        exact ⟨a, t ++ (w.flatMap escByteRev ++ [32]), by simp, this.1, by simpa using hev⟩
+
+/-- `from_file` never takes a value line written by `write_to_file` for the start of a continued value -/
+theorem no_continuation (v : Bytes) : isLineContinuation (32 :: (formatString v ++ [10])) = false := by
+  obtain ⟨r0, R, hX, h13, hev⟩ := formatted_rev v
+  have := isLineContinuation_false (32 :: formatString v) R r0 hX h13 hev
+  simpa using this
+
+/-! ### the value theorem's two halves -/
+
+/-- the reader's loop returns the value on what the writer emitted (before `strip()` is considered) -/
+theorem parseLoop_format (v : Bytes) (h : wfValue v = true) :
+    parseLoop (formatString v) [] [] false = .ok v := by
+  obtain ⟨h13, hq | ⟨hq, h59, _, _⟩⟩ := wfValue_unpack h
+  · -- quoted: `"` escaped `"`
+    simp only [formatString, hq, if_true, escapeValue_eq, Gen.Config.formatQuoteOpen,
+      Gen.Config.formatQuoteClose, List.cons_append, List.nil_append]
+    rw [parseLoop_cons_ne 34 _ [] [] false (by decide)]
+    simp only [Gen.Config.parseQuoteChar, if_true, Bool.not_false]
+    rw [parseLoop_quoted v [34] [] h13, parseLoop_cons_ne 34 [] _ [] true (by decide)]
+    simp [Gen.Config.parseQuoteChar, parseLoop, parseFinish]
+  · -- unquoted
+    obtain ⟨_, hlast, h35⟩ := needsQuote_false hq
+    have hf : formatString v = v.flatMap escByte := by simp [formatString, hq, escapeValue_eq]
+    rw [hf]
+    have := parseLoop_plain v [] [] [] h13 h35 h59
+    rw [List.append_nil] at this
+    rw [this]
+    rcases List.eq_nil_or_concat v with rfl | ⟨ys, l, rfl⟩
+    · rfl
+    · rw [List.concat_eq_append] at hlast ⊢
+      have hl : l ≠ 32 := (hlast l (by simp)).1
+      rw [absorb_last ys l hl]
+      simp [parseLoop, parseFinish]
+
+/-- the writer's output starts and ends with bytes `strip()` keeps (or is empty) -/
+theorem edges_format (v : Bytes) (h : wfValue v = true) : Edges (formatString v) := by
+  obtain ⟨h13, hq | ⟨hq, _, hh, hl⟩⟩ := wfValue_unpack h
+  · right
+    refine ⟨34, 34, ?_, by decide, ?_, by decide⟩
+    · simp [formatString, hq, Gen.Config.formatQuoteOpen]
+    · simp [formatString, hq, Gen.Config.formatQuoteClose]
+  · obtain ⟨hh', hl', _⟩ := needsQuote_false hq
+    have hf : formatString v = v.flatMap escByte := by simp [formatString, hq, escapeValue_eq]
+    rw [hf]
+    apply edges_escaped
+    · intro a ha
+      have hm : a ∈ v := List.mem_of_mem_head? (by rw [ha]; rfl)
+      exact ⟨(hh' a ha).2, (hh' a ha).1, (hh a ha).1, (hh a ha).2, fun e => h13 (e ▸ hm)⟩
+    · intro b hb
+      have hm : b ∈ v := List.mem_of_getLast? hb
+      exact ⟨(hl' b hb).2, (hl' b hb).1, (hl b hb).1, (hl b hb).2, fun e => h13 (e ▸ hm)⟩
+
+
+/-! ### whole files: one line at a time -/
+
+theorem parseHeader_written (sec : Section) (hdr : Bytes) (h : wfSection sec = true)
+    (hw : writeHeader sec = .ok hdr) : parseHeader hdr = .ok (sec, []) := by
+  obtain ⟨name, sub⟩ := sec
+  cases sub with
+  | none =>
+    simp only [wfSection, Bool.and_eq_true, Bool.not_eq_true'] at h
+    simp only [writeHeader, Except.ok.injEq] at hw
+    subst hw
+    have hd : ¬ 46 ∈ name := by simpa [Gen.Config.hdrDot] using h.2
+    exact parseHeader_written_plain name h.1 hd
+  | some sub =>
+    simp only [wfSection, wfSubsection, Bool.and_eq_true, Bool.not_eq_true'] at h
+    simp only [writeHeader] at hw
+    split at hw
+    · cases hw
+    · rename_i esc hesc
+      simp only [Except.ok.injEq] at hw
+      subst hw
+      obtain ⟨he, _, _⟩ := escapeSubsection_ok hesc
+      subst he
+      exact parseHeader_written_sub name sub h.1 h.2.2
+
+/-- a written header is `[` … without inner LF, then LF -/
+theorem writeHeader_shape (sec : Section) (hdr : Bytes) (h : wfSection sec = true)
+    (hw : writeHeader sec = .ok hdr) : ∃ body, hdr = (91 :: body) ++ [10] ∧ ¬ 10 ∈ (91 :: body) := by
+  obtain ⟨name, sub⟩ := sec
+  have hname : ∀ {n : Bytes}, checkSectionName n = true → ¬ 10 ∈ n := by
+    intro n hn hm
+    unfold checkSectionName at hn
+    rw [List.all_eq_true] at hn
+    exact sectionChar_ne_lf 10 (hn 10 hm) rfl
+  cases sub with
+  | none =>
+    simp only [wfSection, Bool.and_eq_true, Bool.not_eq_true'] at h
+    simp only [writeHeader, Except.ok.injEq] at hw
+    subst hw
+    refine ⟨name ++ [93], by simp [Gen.Config.wHdrOpen, Gen.Config.wHdrClose], ?_⟩
+    have := hname h.1
+    simp [this]
+  | some sub =>
+    simp only [wfSection, wfSubsection, Bool.and_eq_true, Bool.not_eq_true'] at h
+    simp only [writeHeader] at hw
+    split at hw
+    · cases hw
+    · rename_i esc hesc
+      simp only [Except.ok.injEq] at hw
+      subst hw
+      obtain ⟨he, h10, _⟩ := escapeSubsection_ok hesc
+      subst he
+      refine ⟨name ++ [32, 34] ++ sub.flatMap subEscByte ++ [34, 93],
+        by simp [Gen.Config.wHdrOpen, Gen.Config.wSubOpen, Gen.Config.wSubClose], ?_⟩
+      have h1 := hname h.1
+      have h2 : ¬ 10 ∈ sub.flatMap subEscByte := by
+        intro hm
+        obtain ⟨c, hc, hcm⟩ := List.mem_flatMap.mp hm
+        exact h10 (subEscByte_lf c hcm ▸ hc)
+      simp [h1, h2]
+
+theorem sameSection_refl (s : Section) : sameSection s s = true := by simp [sameSection]
+
+theorem sameSection_comm (a b : Section) : sameSection a b = sameSection b a := by
+  simp only [sameSection]
+  rw [Bool.eq_iff_iff]
+  simp only [beq_iff_eq]
+  exact ⟨Eq.symm, Eq.symm⟩
+
+theorem cfgSetDefault_new (cfg : Cfg) (sec : Section) (h : ∀ e ∈ cfg, sameSection e.1 sec = false) :
+    cfgSetDefault cfg sec = cfg ++ [(sec, [])] := by
+  unfold cfgSetDefault
+  have : cfg.any (fun e => sameSection e.1 sec) = false := by
+    rw [List.any_eq_false]; intro e he; simp [h e he]
+  simp [this]
+
+theorem cfgModify_last (pre : Cfg) (sec : Section) (ds : Entries) (f : Entries → Entries)
+    (h : ∀ e ∈ pre, sameSection e.1 sec = false) :
+    cfgModify (pre ++ [(sec, ds)]) sec f = pre ++ [(sec, f ds)] := by
+  unfold cfgModify
+  rw [List.map_append]
+  congr 1
+  · conv => rhs; rw [← List.map_id pre]
+    apply List.map_congr_left
+    intro e he
+    simp [h e he]
+  · simp [sameSection_refl]
+
+theorem readLine_header (cfg : Cfg) (s0 : Option Section) (first : Bool) (sec : Section) (hdr : Bytes)
+    (hwf : wfSection sec = true) (hw : writeHeader sec = .ok hdr)
+    (hnew : ∀ e ∈ cfg, sameSection e.1 sec = false) :
+    readLine { cfg := cfg, sec := s0, pending := none } first hdr =
+      .ok { cfg := cfg ++ [(sec, [])], sec := some sec, pending := none } := by
+  obtain ⟨body, hb, _⟩ := writeHeader_shape sec hdr hwf hw
+  have hph := parseHeader_written sec hdr hwf hw
+  have h1 : (first && Gen.Config.bom.isPrefixOf hdr) = false := by
+    rw [hb]; simp [Gen.Config.bom, List.isPrefixOf]
+  have h2 : lstrip hdr = hdr := by
+    rw [hb]; exact lstrip_of_head (a := 91) (by simp) (by decide)
+  have h3 : hdr.head? = some Gen.Config.lineHeaderStart := by rw [hb]; simp [Gen.Config.lineHeaderStart]
+  unfold readLine
+  simp only [h1, Bool.false_eq_true, if_false, h2, h3, if_true, hph, cfgSetDefault_new cfg sec hnew]
+  rfl
+
+
+theorem mem_dropWhile_of_not {p : UInt8 → Bool} {c : UInt8} (hp : p c = false) :
+    ∀ {l : Bytes}, c ∈ l → c ∈ l.dropWhile p := by
+  intro l
+  induction l with
+  | nil => intro h; cases h
+  | cons a l ih =>
+    intro h
+    rw [List.dropWhile_cons]
+    split
+    · rename_i hpa
+      rcases List.mem_cons.mp h with rfl | h
+      · rw [hp] at hpa; cases hpa
+      · exact ih h
+    · exact h
+
+theorem strip_ne_nil {x : Bytes} {c : UInt8} (hc : c ∈ x) (hw : isPyWs c = false) : strip x ≠ [] := by
+  have h1 : c ∈ lstrip x := mem_dropWhile_of_not hw hc
+  have h2 : c ∈ ((lstrip x).reverse.dropWhile isPyWs) := mem_dropWhile_of_not hw (List.mem_reverse.mpr h1)
+  have h3 : c ∈ strip x := by unfold strip rstrip; exact List.mem_reverse.mpr h2
+  intro h; rw [h] at h3; cases h3
+
+theorem strip_snoc_space {x : Bytes} {a b : UInt8} (ha : x.head? = some a) (hpa : isPyWs a = false)
+    (hb : x.getLast? = some b) (hpb : isPyWs b = false) : strip (x ++ [32]) = x := by
+  unfold strip
+  have : (x ++ [32]).head? = some a := by rw [List.head?_append, ha]; rfl
+  rw [lstrip_of_head this hpa, rstrip_snoc_ws x 32 (by decide), rstrip_of_last hb hpb]
+
+/-- the line `write_to_file` emits for one setting -/
+def entryLine (e : Bytes × Bytes) : Bytes := 9 :: (e.1 ++ 32 :: 61 :: 32 :: (formatString e.2 ++ [10]))
+
+theorem writeEntry_eq (e : Bytes × Bytes) : writeEntry e = entryLine e := by
+  simp [writeEntry, entryLine, Gen.Config.wIndent, Gen.Config.wSep, Gen.Config.wEnd]
+
+theorem key_facts {k : Bytes} (hk : wfKey k = true) :
+    k ≠ [] ∧ checkVariableName k = true ∧
+      ∀ c ∈ k, isPyWs c = false ∧ c ≠ 61 ∧ c ≠ 91 ∧ c ≠ 10 ∧ Plain c := by
+  simp only [wfKey, Bool.and_eq_true, Bool.not_eq_true', List.isEmpty_eq_false_iff] at hk
+  refine ⟨hk.1, hk.2, ?_⟩
+  intro c hc
+  have := hk.2
+  unfold checkVariableName at this
+  rw [List.all_eq_true] at this
+  exact varChar_facts c (this c hc)
+
+theorem entryLine_shape (k v : Bytes) (hk : wfKey k = true) :
+    ∃ body, entryLine (k, v) = body ++ [10] ∧ ¬ 10 ∈ body := by
+  obtain ⟨_, _, hc⟩ := key_facts hk
+  refine ⟨9 :: (k ++ 32 :: 61 :: 32 :: formatString v), by simp [entryLine], ?_⟩
+  have h1 : ¬ 10 ∈ k := fun hm => (hc 10 hm).2.2.2.1 rfl
+  have h2 := formatString_no_lf v
+  simp [h1, h2]
+
+theorem readLine_entry (pre : Cfg) (sec : Section) (ds : Entries) (k v : Bytes)
+    (hk : wfKey k = true) (hv : wfValue v = true) (hpre : ∀ e ∈ pre, sameSection e.1 sec = false) :
+    readLine { cfg := pre ++ [(sec, ds)], sec := some sec, pending := none } false (entryLine (k, v)) =
+      .ok { cfg := pre ++ [(sec, ds ++ [(k, v)])], sec := some sec, pending := none } := by
+  obtain ⟨hne, hcv, hc⟩ := key_facts hk
+  obtain ⟨a, k', rfl⟩ := List.exists_cons_of_ne_nil hne
+  obtain ⟨b, hb⟩ : ∃ b, (a :: k').getLast? = some b := by
+    cases h : (a :: k').getLast? with
+    | none => simp at h
+    | some b => exact ⟨b, rfl⟩
+  have hbm : b ∈ (a :: k') := List.mem_of_getLast? hb
+  have ha := hc a (by simp)
+  -- the text after `lstrip()`
+  let F := formatString v
+  let L : Bytes := (a :: k') ++ 32 :: 61 :: 32 :: (F ++ [10])
+  have f1 : lstrip (entryLine (a :: k', v)) = L := by
+    unfold entryLine
+    rw [lstrip_cons_ws 9 _ (by decide)]
+    exact lstrip_of_head (a := a) (by simp) ha.1
+  have f2 : L.head? = some a := by simp [L]
+  have f2' : ¬ (some a = some Gen.Config.lineHeaderStart) := by
+    simp only [Option.some.injEq, Gen.Config.lineHeaderStart]; exact ha.2.2.1
+  have hplain : ∀ c ∈ ((a :: k') ++ [32, 61]), Plain c := by
+    intro c hm
+    rcases List.mem_append.mp hm with h | h
+    · exact (hc c h).2.2.2.2
+    · simp only [List.mem_cons, List.not_mem_nil, or_false] at h
+      rcases h with rfl | rfl <;> (unfold Plain; decide)
+  have f3 : strip (stripComments L) ≠ [] := by
+    have : L = ((a :: k') ++ [32, 61]) ++ (32 :: (F ++ [10])) := by simp [L]
+    rw [this]
+    unfold stripComments
+    rw [stripCommentsAux_plain _ hplain]
+    exact strip_ne_nil (c := 61) (by simp) (by decide)
+  have f4 : splitOnce Gen.Config.settingSep L = ((a :: k') ++ [32], some (32 :: (F ++ [10]))) := by
+    have : L = ((a :: k') ++ [32]) ++ 61 :: (32 :: (F ++ [10])) := by simp [L]
+    rw [this]
+    apply splitOnce_found
+    intro hm
+    rcases List.mem_append.mp hm with h | h
+    · exact (hc 61 h).2.1 rfl
+    · exact absurd h (by decide)
+  have f5 : strip ((a :: k') ++ [32]) = a :: k' :=
+    strip_snoc_space (a := a) (b := b) (by simp) ha.1 hb (hc b hbm).1
+  have f7 : isLineContinuation (32 :: (F ++ [10])) = false := no_continuation v
+  have f8 : parseString (32 :: (F ++ [10])) = .ok v := by
+    unfold parseString
+    rw [strip_line_of_edges (edges_format v hv), parseLoop_format v hv]
+  have f9 : cfgAppend (pre ++ [(sec, ds)]) sec (a :: k') v = pre ++ [(sec, ds ++ [(a :: k', v)])] := by
+    unfold cfgAppend
+    rw [cfgModify_last pre sec ds _ hpre]; rfl
+  unfold readLine
+  simp only [Bool.false_and, Bool.false_eq_true, if_false, f1, f2, f2', f3, f4, f5, hcv, Bool.not_true, f7, f8, f9]
+
+
+/-! ### whole files: induction over entries and sections -/
+
+theorem readLines_cons_line (st : RState) (first : Bool) (body rest : Bytes) (h : ¬ 10 ∈ body) :
+    readLines st first (splitLines ((body ++ [10]) ++ rest)) =
+      match readLine st first (body ++ [10]) with
+      | .error e => .error e
+      | .ok st' => readLines st' false (splitLines rest) := by
+  rw [splitLines_line body h]; rfl
+
+theorem readLines_entries (pre : Cfg) (sec : Section) (hpre : ∀ e ∈ pre, sameSection e.1 sec = false)
+    (d : Entries) : ∀ (ds : Entries) (rest : Bytes), wfEntries d = true →
+    readLines { cfg := pre ++ [(sec, ds)], sec := some sec, pending := none } false
+        (splitLines (writeEntries d ++ rest)) =
+      readLines { cfg := pre ++ [(sec, ds ++ d)], sec := some sec, pending := none } false (splitLines rest) := by
+  induction d with
+  | nil => intro ds rest _; simp [writeEntries]
+  | cons e d ih =>
+    intro ds rest hwf
+    obtain ⟨k, v⟩ := e
+    simp only [wfEntries, List.all_cons, Bool.and_eq_true] at hwf
+    obtain ⟨⟨hk, hv⟩, hd⟩ := hwf
+    obtain ⟨body, hb, hlf⟩ := entryLine_shape k v hk
+    have hw : writeEntries ((k, v) :: d) ++ rest = (body ++ [10]) ++ (writeEntries d ++ rest) := by
+      simp only [writeEntries, List.flatMap_cons, writeEntry_eq, hb, List.append_assoc]
+    rw [hw, readLines_cons_line _ _ body _ hlf, ← hb, readLine_entry pre sec ds k v hk hv hpre]
+    simp only
+    rw [ih (ds ++ [(k, v)]) rest (by simpa [wfEntries] using hd)]
+    simp
+
+theorem readLines_file (cfg : Cfg) : ∀ (pre : Cfg) (s0 : Option Section) (first : Bool) (data : Bytes),
+    writeFile cfg = .ok data → (∀ e ∈ cfg, wfSection e.1 = true ∧ wfEntries e.2 = true) →
+    distinctSections cfg = true → (∀ e ∈ pre, ∀ f ∈ cfg, sameSection e.1 f.1 = false) →
+    ∃ s1, readLines { cfg := pre, sec := s0, pending := none } first (splitLines data) =
+      .ok { cfg := pre ++ cfg, sec := s1, pending := none } := by
+  induction cfg with
+  | nil =>
+    intro pre s0 first data hw _ _ _
+    simp only [writeFile, Except.ok.injEq] at hw
+    subst hw
+    exact ⟨s0, by simp [splitLines, splitLinesAux, readLines]⟩
+  | cons sd cfg ih =>
+    intro pre s0 first data hw hwf hdist hpre
+    obtain ⟨sec, d⟩ := sd
+    simp only [writeFile] at hw
+    split at hw
+    · cases hw
+    · rename_i h hh
+      split at hw
+      · cases hw
+      · rename_i r hr
+        simp only [Except.ok.injEq] at hw
+        subst hw
+        have hsec := hwf (sec, d) (by simp)
+        obtain ⟨body, hb, hlf⟩ := writeHeader_shape sec h hsec.1 hh
+        have hnew : ∀ e ∈ pre, sameSection e.1 sec = false := fun e he => hpre e he (sec, d) (by simp)
+        simp only [distinctSections, Bool.and_eq_true, Bool.not_eq_true'] at hdist
+        have hd2 : ∀ f ∈ cfg, sameSection (sec, d).1 f.1 = false := by
+          intro f hf
+          have := List.any_eq_false.mp hdist.1 f hf
+          rw [sameSection_comm]; simpa using this
+        have e1 : h ++ writeEntries d ++ r = ((91 :: body) ++ [10]) ++ (writeEntries d ++ r) := by
+          rw [hb, List.append_assoc]
+        rw [e1, readLines_cons_line _ _ (91 :: body) _ hlf, ← hb, readLine_header pre s0 first sec h hsec.1 hh hnew]
+        simp only
+        rw [readLines_entries pre sec hnew d [] r hsec.2]
+        obtain ⟨s1, hs1⟩ := ih (pre ++ [(sec, d)]) (some sec) false r hr
+          (fun e he => hwf e (by simp [he])) hdist.2
+          (by
+            intro e he f hf
+            rcases List.mem_append.mp he with he | he
+            · exact hpre e he f (by simp [hf])
+            · simp only [List.mem_singleton] at he; subst he; exact hd2 f hf)
+        refine ⟨s1, ?_⟩
+        simp only [List.nil_append]
+        rw [hs1]
+        simp
+
+
+/-! ### `ConfigDict.set/add/remove` keep the sections pairwise distinct -/
+
+def distinctNames : List Section → Bool
+  | [] => true
+  | s :: rest => !rest.any (fun t => sameSection t s) && distinctNames rest
+
+theorem distinctSections_eq (cfg : Cfg) : distinctSections cfg = distinctNames (cfg.map (·.1)) := by
+  induction cfg with
+  | nil => rfl
+  | cons e cfg ih =>
+    obtain ⟨s, d⟩ := e
+    simp only [distinctSections, List.map_cons, distinctNames, ih, List.any_map]
+    rfl
+
+theorem cfgModify_names (cfg : Cfg) (sec : Section) (f : Entries → Entries) :
+    (cfgModify cfg sec f).map (·.1) = cfg.map (·.1) := by
+  unfold cfgModify
+  rw [List.map_map]
+  apply List.map_congr_left
+  intro e _
+  simp only [Function.comp]
+  split <;> rfl
+
+theorem distinctNames_snoc (l : List Section) (s : Section) (hd : distinctNames l = true)
+    (hs : l.any (fun t => sameSection t s) = false) : distinctNames (l ++ [s]) = true := by
+  induction l with
+  | nil => simp [distinctNames]
+  | cons a l ih =>
+    simp only [distinctNames, Bool.and_eq_true, Bool.not_eq_true'] at hd
+    simp only [List.any_cons, Bool.or_eq_false_iff] at hs
+    simp only [List.cons_append, distinctNames, List.any_append, List.any_cons, List.any_nil, Bool.or_false,
+      Bool.and_eq_true, Bool.not_eq_true', Bool.or_eq_false_iff]
+    refine ⟨⟨hd.1, ?_⟩, ih hd.2 hs.2⟩
+    rw [sameSection_comm]; exact hs.1
+
+theorem distinct_setDefault (cfg : Cfg) (sec : Section) (h : distinctSections cfg = true) :
+    distinctSections (cfgSetDefault cfg sec) = true := by
+  unfold cfgSetDefault
+  split
+  · exact h
+  · rename_i hn
+    rw [distinctSections_eq] at h ⊢
+    rw [List.map_append]
+    apply distinctNames_snoc _ _ h
+    simpa [List.any_map] using hn
+
+theorem distinct_modify (cfg : Cfg) (sec : Section) (f : Entries → Entries) (h : distinctSections cfg = true) :
+    distinctSections (cfgModify cfg sec f) = true := by
+  rw [distinctSections_eq, cfgModify_names, ← distinctSections_eq]; exact h
 
 end Dulwich.Config
